@@ -143,7 +143,7 @@ func ArithOpen(w []string) (string, error) {
 
 // ---- file.ReadAt ------------------------------------------------------------------------------
 
-type step struct{ co, cs, n int64 }
+type step struct{ co, cs, n, h int64 }
 
 type scriptFile struct {
 	steps []step
@@ -195,25 +195,39 @@ func (m *scriptMeta) OpenFileWithPreReader(id uint32, preRead func(id uint32, ch
 func (m *scriptMeta) Clone(sr *io.SectionReader) (metadata.Reader, error) { return m, nil }
 func (m *scriptMeta) Close() error                                        { return nil }
 
-// missCache never holds anything.
-type missCache struct{}
+// scriptCache answers a hit of h bytes for the chunk of the current step when h >= 0.
+type scriptCache struct{ f *scriptFile }
 
-func (missCache) Add(key string, opts ...cache.Option) (cache.Writer, error) {
+type hitReader struct{ h int64 }
+
+func (r hitReader) ReadAt(p []byte, off int64) (int, error) {
+	if r.h < int64(len(p)) {
+		return int(r.h), io.EOF
+	}
+	return len(p), nil
+}
+func (r hitReader) Close() error             { return nil }
+func (r hitReader) GetReaderAt() io.ReaderAt { return r }
+
+func (c scriptCache) Add(key string, opts ...cache.Option) (cache.Writer, error) {
 	return nil, errors.New("no space")
 }
-func (missCache) Get(key string, opts ...cache.Option) (cache.Reader, error) {
+func (c scriptCache) Get(key string, opts ...cache.Option) (cache.Reader, error) {
+	if c.f.k > 0 && c.f.steps[c.f.k-1].h >= 0 {
+		return hitReader{c.f.steps[c.f.k-1].h}, nil
+	}
 	return nil, errors.New("miss")
 }
-func (missCache) Close() error { return nil }
+func (c scriptCache) Close() error { return nil }
 
 func parseSteps(ws []string, three bool) ([]step, error) {
 	var out []step
 	for _, s := range ws {
 		f := strings.Split(s, ":")
-		if (three && len(f) != 3) || (!three && len(f) != 2) {
+		if (three && len(f) != 3 && len(f) != 4) || (!three && len(f) != 2) {
 			return nil, errors.New("bad step")
 		}
-		var st step
+		st := step{h: -1}
 		var err error
 		if st.co, err = strconv.ParseInt(f[0], 10, 64); err != nil {
 			return nil, err
@@ -224,6 +238,11 @@ func parseSteps(ws []string, three bool) ([]step, error) {
 		if three {
 			if st.n, err = strconv.ParseInt(f[2], 10, 64); err != nil {
 				return nil, err
+			}
+			if len(f) == 4 {
+				if st.h, err = strconv.ParseInt(f[3], 10, 64); err != nil {
+					return nil, err
+				}
 			}
 		}
 		out = append(out, st)
@@ -243,7 +262,8 @@ func ArithRead(w []string) (string, error) {
 		return "", errors.New("bad rd op")
 	}
 	log := &evlog{}
-	vr, err := reader.NewReader(&scriptMeta{&scriptFile{steps: steps, log: log}}, missCache{}, digest.FromString("l"))
+	sf := &scriptFile{steps: steps, log: log}
+	vr, err := reader.NewReader(&scriptMeta{sf}, scriptCache{sf}, digest.FromString("l"))
 	if err != nil {
 		return "", err
 	}
@@ -304,7 +324,7 @@ func ArithPass(w []string, dir string) (string, error) {
 // ---- initFields / getSource --------------------------------------------------------------------
 
 // ArithTree: "tree <hexname>:<type>:<hexlink> ..." with names that are already clean.
-// Answer: "err" or "ok <parent>/<base>><target>,..." over the nodes reachable from the root.
+// Answer: "err" or "ok <parent>/<base>><target>:<type>,..." over the nodes reachable from the root.
 func ArithTree(w []string, gz *Base) (string, error) {
 	var ents []Ent
 	for _, s := range w[1:] {
@@ -337,7 +357,13 @@ func ArithTree(w []string, gz *Base) (string, error) {
 		}
 		seen[e] = true
 		e.ForeachChild(func(base string, c *estargz.TOCEntry) bool {
-			edges = append(edges, fmt.Sprintf("%s/%s>%s", hexDash(e.Name), hexDash(base), hexDash(c.Name)))
+			ty := c.Type
+			switch ty {
+			case "dir", "reg", "symlink", "hardlink", "chunk":
+			default:
+				ty = "other"
+			}
+			edges = append(edges, fmt.Sprintf("%s/%s>%s:%s", hexDash(e.Name), hexDash(base), hexDash(c.Name), ty))
 			return true
 		})
 		e.ForeachChild(func(base string, c *estargz.TOCEntry) bool {
@@ -373,7 +399,7 @@ func unhexDash(s string) string {
 func TargetArith(in *Input, rec *Rec, gz *Base, dir string) {
 	w := strings.Fields(in.Op)
 	res := "panic"
-	rec.Try("arith."+w[0], func() error {
+	cl := rec.Try("arith."+w[0], func() error {
 		var err error
 		switch w[0] {
 		case "open":
@@ -393,6 +419,9 @@ func TargetArith(in *Input, rec *Rec, gz *Base, dir string) {
 		}
 		return nil
 	})
+	if cl == "skipped" {
+		return
+	}
 	rec.Line(in.Op, res)
 }
 
@@ -455,7 +484,15 @@ func (g *Gen) ArithOp() Input {
 			} else {
 				co, cs, n = g.advInt(cur, off, lenP), g.advInt(lenP, 4, cur), g.advInt(0, 4)
 			}
+			if cs > 1<<20 && cs < 1<<62 {
+				// would be a real multi-gigabyte allocation (slow, machine dependent): either a
+				// plausible size or one no machine can serve
+				cs = []int64{1 << 20, 1 << 62, 1<<62 + 1, 1<<63 - 1}[r.Intn(4)]
+			}
 			op += fmt.Sprintf(" %d:%d:%d", co, cs, n)
+			if r.Intn(5) == 0 {
+				op += fmt.Sprintf(":%d", []int64{0, 1, cs - 1, cs, cs + 1, 1 << 40}[r.Intn(6)])
+			}
 			if cs > 0 && cs < 1<<20 {
 				cur = co + cs
 			}
